@@ -34,16 +34,24 @@ Count(s, x) == Cardinality({i \in 1..Len(s) : s[i] = x})
 (*         data : [Doms -> {"ok","temp","perm"}]  SMTP: DATA refused 451 / final  *)
 (*                                           dot refused 554, per connection      *)
 (*         st   : [Given -> {"ok","temp","perm"}], LMTP: reply per recipient      *)
+(*         src : "ok" | "noopen" | "readfail" | "reset"  the body cannot be opened /  *)
+(*                       its reader fails half-way / the next hop resets the           *)
+(*                       connection in mid-DATA                                        *)
+(*         late : 0..3   list position whose RCPT reply arrives only after             *)
+(*                       command_timeout (0 = none)                                    *)
 (*         drop : 0..3]  LMTP: the next hop answers for the first `drop` accepted *)
 (*                       recipients after the final dot, then the connection      *)
 (*                       breaks (drop >= number of accepted recipients: no break) *)
 (* the results the next hop gave for the accepted recipient r (one per time it    *)
 (* was accepted; "lost" = no answer arrived, any failure is a truthful report)    *)
 TruthSet(kind, plan, acc, r) ==
-  IF kind = "lmtp"
-  THEN IF plan.data["D1"] # "ok" THEN {plan.data["D1"]}
-       ELSE {IF i <= plan.drop THEN plan.st[r] ELSE "lost" : i \in {j \in 1..Len(acc) : acc[j] = r}}
-  ELSE {plan.data[Dom(r)]}
+  (IF kind = "lmtp"
+   THEN IF plan.data["D1"] # "ok" THEN {plan.data["D1"]}
+        ELSE {IF i <= plan.drop THEN plan.st[r] ELSE "lost" : i \in {j \in 1..Len(acc) : acc[j] = r}}
+   ELSE {plan.data[Dom(r)]})
+  \* a transport fault (body source fails, connection reset in mid-DATA, a reply overdue) may
+  \* turn any result into a failure
+  \cup (IF plan.src # "ok" \/ plan.late > 0 THEN {"lost"} ELSE {})
 Truthful(v, t) == IF t = "lost" THEN v # "ok" ELSE v = t
 
 ObsInit == [acc |-> <<>>, plan |-> <<>>, n |-> 0, viol |-> {}]
@@ -52,9 +60,17 @@ V(o, c, name) == IF c THEN o ELSE [o EXCEPT !.viol = @ \cup {[p |-> name, m |-> 
 
 ObsTxn(o, plan) == [o EXCEPT !.acc = <<>>, !.plan = plan, !.n = @ + 1]
 
+(* the per-recipient body step did not return (it panicked): whatever was handed to the collector *)
+(* so far is void for the caller, which can only discard the delivery                             *)
+ObsPanic(o) == V(o, FALSE, "BodyStepDidNotReturn")
+
 ObsTxnEnd(o) == [o EXCEPT !.acc = <<>>, !.plan = <<>>]
 
-ObsAddRcpt(o, r, res) == IF res = "ok" THEN [o EXCEPT !.acc = Append(@, r)] ELSE o
+(* an acceptance reported to the caller must be the next hop's acceptance of THAT recipient *)
+ObsAddRcpt(o, r, res) ==
+  LET o1 == IF res = "ok" THEN [o EXCEPT !.acc = Append(@, r)] ELSE o
+  IN IF o.plan = <<>> THEN o1
+     ELSE V(o1, res = "ok" => o.plan.rcpt[r] = "ok", "AcceptanceOfAnotherRecipient")
 
 (* sts : sequence of [k, v] the collector received during BodyNonAtomic *)
 (* the part of the statement that needs no knowledge of what the next hop answered *)
